@@ -21,6 +21,10 @@ def build_inputs(chk, mdl):
     # systematic aliases: every position of every short suite string of each accepting control state replaced by code point + 256
     for f in chk.rng.sample(suite, min(len(suite), 600 if tier == "quick" else 6000)):
         wide.update(parsesuite.widen_all(f, 24))
+    # ... and after the access string of EVERY control state: each class representative + 256 / + 65536, with the completion the
+    # valid character would have had (only the strings that contain such a code point: the access strings themselves are narrow)
+    _, alias = parsesuite.automaton_suite(mdl, 2)
+    wide.update(f for f in alias if any(c > 255 for c in (dec(f) or [])))
     wide = sorted(wide)
     return nstates, suite, rnd, corpus, narrow, wide
 
